@@ -30,6 +30,9 @@ def atom_of(test):
     if isinstance(test, ast.Compare) and len(test.ops) == 1:
         op = test.ops[0]
         left, right = test.left, test.comparators[0]
+        if isinstance(op, (ast.Eq, ast.NotEq)) and isinstance(left, ast.Constant) and not isinstance(right, ast.Constant):
+            left, right = right, left        # `0 == axis` is `axis == 0`
+            test = ast.Compare(left=left, ops=[op], comparators=[right])
         if isinstance(right, ast.Constant) and right.value is None:
             base = ('atom', unparse(left, 0) + ' is None')
             if isinstance(op, (ast.Is, ast.Eq)):
